@@ -2,6 +2,7 @@
 from __future__ import annotations
 
 import ast
+import re
 from typing import Dict, List, Optional, Set
 
 from sa.pm import Program, FuncInfo, ClassInfo, dotted, norm, calls_in, walk_no_nested, AnalysisError, kwarg
@@ -151,6 +152,15 @@ def width_call_ok(prog: Program, f: FuncInfo, call: ast.Call, ctx_cls: ClassInfo
     return True, f"ignores {recv}.source_sink_edges and the model's ignore set"
 
 
+MGS_ARGS = {
+    "MinFlowDecompCycles": {"max_multiplicity": (r"self\.w_max", "a walk may traverse a cycle edge up to w_max times, so a weight may be used that often in one flow value"),
+                            "total": (r"source_flow", "the generating set sums to the total source flow"),
+                            "weight_type": (r"self\.weight_type", "same numeric type as the decomposition")},
+    "MinFlowDecomp": {"total": (r"source_flow", "the generating set sums to the total source flow"),
+                      "weight_type": (r"self\.weight_type", "same numeric type as the decomposition")},
+}
+
+
 def comprehension_excludes_ignored(e: ast.AST) -> bool:
     """A set/list comprehension (possibly wrapped in set()/list()) over the edges with a `... not in self.edges_to_ignore` filter."""
     for n in ast.walk(e):
@@ -291,6 +301,16 @@ def provider_function_rule(prog: Program, rep, RID: str, cname: str, g: FuncInfo
         if not mgs_calls:
             raise AnalysisError(f"{cname}.{g.name}: MinGenSet construction not found")
         for c in mgs_calls:
+            # arguments that make the generating-set size a bound for *this* kind of decomposition (frozen table)
+            want = MGS_ARGS.get(cname, {})
+            for kw_name, (pat_, why_) in want.items():
+                val_ = kwarg(c, kw_name)
+                keya = f"{cname}.{g.name}:MinGenSet({kw_name})"
+                if val_ is not None and re.fullmatch(pat_, norm(val_)):
+                    rep.ok(RID, keya, f"{kw_name}={norm(val_)} ({why_})", g.loc(c))
+                else:
+                    rep.violation(RID, keya, f"MinGenSet is built with {kw_name}={norm(val_) if val_ is not None else '<default>'}; required: {why_} - "
+                                  "otherwise the generating-set size exceeds the true optimum and the search starts too high", g.loc(c))
             st = None
             for sid, sst in states.items():
                 pass
